@@ -32,7 +32,7 @@ func run(cfg lib.Cfg) error {
 		}
 	}
 	r := lib.NewRNG(cfg.Seed)
-	n := 520
+	n := 380
 	if cfg.Thorough() {
 		n = 4000
 	}
@@ -43,7 +43,7 @@ func run(cfg lib.Cfg) error {
 			out.Add(k)
 		}
 	}
-	nj := 40
+	nj := 30
 	if cfg.Thorough() {
 		nj = 400
 	}
@@ -58,5 +58,13 @@ func run(cfg lib.Cfg) error {
 		out.Notes[k] = v
 	}
 	rows.DistNotes(out)
+	// quick: one shard per core of the 16; thorough: 60 cases per shard
+	out.PerShard = 60
+	if !cfg.Thorough() {
+		out.PerShard = (len(out.Cases) + 15) / 16
+		if out.PerShard < 20 {
+			out.PerShard = 20
+		}
+	}
 	return out.Flush()
 }
